@@ -258,3 +258,28 @@ register(
     ],
     probes=["non_identity_permutation", "exhaustive_permutations_k2", "exhaustive_permutations_k3", "exhaustive_permutations_k4", "labels_str", "function_name_clause"],
 )
+
+register(
+    "C18",
+    quick=1500,
+    thorough=50000,
+    level="exploration",
+    rule=(
+        "only non_linear_correlations is addressed (the r2_score_comparable sentence is a pure function and is not "
+        "covered). one run = one numeric table (n 4..36, 1..4 columns of kinds normal / constant / collinear / "
+        "integer / two-step), a peer model (LinearRegression, tree, dummy), draws 1..4, minmax on/off; the "
+        "module-level train_test_split is replaced by a simulator-owned splitter returning legal half/half splits "
+        "chosen adversarially from stream r (first/last halves, sorted and reverse-sorted by a column, interleaved, "
+        "seeded random) in 2/3 of the runs and delegating to the real function under a simulator seed otherwise; "
+        "the same taped splits are replayed for the DataFrame call and for a call in which a drawn fit/predict site "
+        "of the model fails; oracles: shape, labels, [0,1] and no NaN, min<=mean<=max, frame==array, unit diagonal "
+        "for the linear model, input bytes unchanged (also after the failing call); non-trivial = every run; "
+        "distinct = distinct (d, column kinds, model, draws, minmax, split mode, fault, n bucket)"
+    ),
+    assumptions=[
+        "weak fit for this technique, stated as such: the only environment entropy is the split; r2_score_comparable is not covered",
+        "the split reaches the function only through the module-level name train_test_split of mlinsights.metrics.correlations",
+        "models are peers; LinearRegression is the 'model able to learn the identity'",
+    ],
+    probes=["sorted_split", "column_constant", "column_collinear", "model_failed_inside_call"],
+)
